@@ -7570,7 +7570,10 @@ FileDirectory_getFromBuffer(FileDirectory self, CS101_AppLayerParameters paramet
         uint8_t* msg, int msgSize, int startIndex, bool isSequence)
 {
     /* check message size */
-    int minSize = startIndex + parameters->sizeOfIOA + 13;
+    int minSize = startIndex + 13;
+
+    if (!isSequence)
+        minSize += parameters->sizeOfIOA;
 
     if (minSize > msgSize) {
         DEBUG_PRINT("invalid ASDU - size too small\n");
